@@ -77,6 +77,24 @@ def ensures(name, thunk):
         _run_clause(name, thunk)
 
 
+def ensures_native(name, thunk):
+    """clause outside the symbolic verifier's reach (e.g. counting): checked natively only"""
+    if ST.phase == 'post':
+        _run_clause(name, thunk)
+
+
+_SEQ = [0]
+
+
+def next_seq():
+    _SEQ[0] += 1
+    return _SEQ[0]
+
+
+def ghost_seq(fn, k):
+    return _calls(fn)[k]['seq']
+
+
 def check(name, thunk):
     _run_clause(name, thunk)
 
